@@ -163,6 +163,14 @@ def gen_cases(rng, tier, info):
         c = Case("orphan-%d" % j, h.cmds)
         c.start_db = db
         cases.append(c)
+    # a table that already holds the 65,536 rows the format allows: an INSERT with new strings is refused, and the saved
+    # bytes (string pool included) are the same before and after the refused call (implementation only: bulk)
+    T = X.enc_str("Full")
+    cases.append(Case("full-table", [
+        "(create 0)", "(create_table %s ((col (75) i32 0 0 1 () () () ()) (col (86) (str 0) 0 1 0 () () () ())))" % T,
+        "(x_insert_range %s 1 65536 2)" % T, "(x_count %s)" % T, "(flush)", "(x_raw)",
+        "(insert %s (((i 70000) (s (108 101 97 107 49))) ((i 70001) (s (108 101 97 107 50)))))" % T,
+        "(x_count %s)" % T, "(flush)", "(x_raw)", "(reopen into_inner)", "(x_count %s)" % T], ("impl_only", "bulk")))
     info.update({"histories": n, "invalid_calls": n_calls})
     return cases
 
@@ -174,6 +182,20 @@ def nontrivial(case):
 def oracle(ctx):
     bad = []
     for c, outs in zip(ctx.cases, ctx.impl_out):
+        if "bulk" in c.tags:
+            raws = [o for cmd, o in zip(c.cmds, outs) if cmd == "(x_raw)"]
+            ins = [o for cmd, o in zip(c.cmds, outs) if cmd.startswith("(insert ")]
+            cnt = [o for cmd, o in zip(c.cmds, outs) if cmd.startswith("(x_count")]
+            if any(o in ("panic", "abort", "timeout") for o in outs):
+                bad.append({"kind": "panic", "what": "full-table case: %s" % [o[:30] for o in outs if o in ("panic", "abort", "timeout")][:1], "cmds": c.cmds, "impl": "panic"})
+            elif ins and ins[0] == "(ok ())":
+                bad.append({"kind": "gate", "what": "an INSERT into a table of 65,536 rows was accepted", "cmds": c.cmds[:7], "impl": ins[0]})
+            elif len(raws) == 2 and raws[0] != raws[1]:
+                bad.append({"kind": "err-changed", "what": "an INSERT refused because the table is full changed the saved bytes (string pool / streams differ)",
+                            "cmds": c.cmds[:10], "impl": "raw streams differ"})
+            elif len(set(cnt)) != 1:
+                bad.append({"kind": "err-changed", "what": "row count changed around a refused INSERT: %r" % cnt, "cmds": c.cmds, "impl": str(cnt)})
+            continue
         for f in G.walk(c.cmds, outs, decode=lambda cp, raw: raw.decode("utf-8", "replace"), start_db=getattr(c, "start_db", None)):
             if f["kind"] in KINDS:
                 bad.append(f)
